@@ -280,3 +280,37 @@ func ZZ_C05_floatmix() {
 	rt.Assert(contains(all, b8), "floatmix:f8-value")
 	rt.Reach("end")
 }
+
+// ZZ_C05_radix: a binary/octal literal whose k digits are ANY decimal digits: it denotes a
+// value only if every digit is below the radix; otherwise the item must be refused (never
+// split into several literals).
+func ZZ_C05_radix() {
+	typ, cls, k := rt.Param("typ"), rt.Param("cls"), rt.Param("k")
+	base := uint64([]int{10, 16, 8, 2}[cls])
+	digits := rt.String("d", k)
+	val, wellFormed := uint64(0), true
+	for i := 0; i < k; i++ {
+		c := digits[i]
+		rt.Assume(rt.And(c >= '0', c <= '9'))
+		wellFormed = rt.And(wellFormed, uint64(c-'0') < base)
+		val = val*base + uint64(c-'0')
+	}
+	text := "S1F1\n<" + zzTypes[typ] + " 0" + string("xob"[cls-1]) + digits + ">\n."
+	w := zzWidth[typ]
+	lim := zzMaxU(w)
+	if zzIsSigned(typ) {
+		lim = lim >> 1
+	}
+	if typ == zzB {
+		lim = 255
+	}
+	if rt.And(wellFormed, val <= lim) {
+		m := zzOne(text, "radix-literal")
+		p := zzPayload(m)
+		rt.Assert(len(p) == w, "radix-literal:one-element")
+		rt.Assert(zzBEv(p, w) == val, "radix-literal:value")
+	} else {
+		zzRejected(text, "digit-outside-radix")
+	}
+	rt.Reach("end")
+}
